@@ -92,7 +92,7 @@ Cfg gen_cfg(Rng &rng, GenOpts const &o){
     // depth caps that keep rule construction cheap (greedy sequences are optimised numerically; tables are finite)
     if (c.family == fam_global || c.family == fam_sequence){
         if (is_optimized_sequence(c.rule)) c.depth = std::min(c.depth, 9);
-        if (c.rule == rule_gausspatterson) c.depth = std::min(c.depth, 6);
+        if (c.rule == rule_gausspatterson) c.depth = std::min(c.depth, 8); // the table holds levels 0..8
         if (c.rule == rule_clenshawcurtis || c.rule == rule_clenshawcurtis0 || c.rule == rule_fejer2 || c.rule == rule_rlejashifteddouble)
             c.depth = std::min(c.depth, 7);
         if (c.custom) c.depth = std::min(c.depth, 5);
